@@ -121,6 +121,20 @@ def label_dependent_cases(run):
             body = [("push", ("num", consts[0]))] + body
             consts = [consts[0]] + consts
         cases.append(mk_case(body, "constants-after-label-push", mixed=consts))
+    # a label-dependent push whose value is NEGATIVE in the first layout rounds (all widths still 1) and
+    # non-negative in the end: `%push(end - start - K)` with K between the first-round and the final distance
+    for _ in range(40 if run.tier == "thorough" else 14):
+        consts = [rng.choice([1, 7, 255, 256, 0x112233, 65536, 2 ** 32, 2 ** 64]) for _ in range(rng.randrange(2, 5))]
+        if all(G.width_of(c) == 1 for c in consts):
+            consts[-1] = 0x112233
+        final = 2 + sum(1 + G.width_of(c) for c in consts)           # the leading push stays one byte wide (value < 256)
+        first = 2 + 2 * len(consts)
+        K = rng.randrange(first + 1, final + 1)
+        lead = ("push", G.climb([("lbl", "end"), "-", ("lbl", "start"), "-", ("num", K)]))
+        body = [("label", "start"), lead] + [("push", ("num", c)) for c in consts] + [("label", "end"), ("op", "jumpdest", None)]
+        if rng.random() < 0.3:
+            body = [("defi", "m", [], body), ("macro", "m", [])]
+        cases.append(mk_case(body, "constants-after-transiently-negative-push", mixed=consts + [final - K]))
     return cases
 
 
@@ -141,5 +155,5 @@ def mixed_oracle(c, ans):
 def check(run):
     cases = gen(run) + label_dependent_cases(run)
     return asmfam.run_family(run, "C07", cases, oracle,
-                             "shrinking values (%push(K - L) that needs its wider early width no longer at the end: bytes must still agree with the layout); cascades (auto-sized pushes of L*m+k that settle only after several widening rounds: one push growing twice, searched 2-4 push programs needing more rounds than pushes; exact value checked against the decoded position of the label); values 256^k-1, 256^k, 256^k+1 for k=0..33, negatives, random; each in up to 11 spellings (4 radices, sum, product, parenthesised, expression macro, macro argument, before/after labels); constants placed after one or two label-dependent %pushes (each constant must keep its own minimal width); distinct = distinct sources",
+                             "shrinking values (%push(K - L) that needs its wider early width no longer at the end: bytes must still agree with the layout); cascades (auto-sized pushes of L*m+k that settle only after several widening rounds: one push growing twice, searched 2-4 push programs needing more rounds than pushes; exact value checked against the decoded position of the label); values 256^k-1, 256^k, 256^k+1 for k=0..33, negatives, random; each in up to 11 spellings (4 radices, sum, product, parenthesised, expression macro, macro argument, before/after labels); constants placed after one or two label-dependent %pushes (each constant must keep its own minimal width), also after a push whose value is negative in the first layout rounds only; distinct = distinct sources",
                              "auto-sized pushes")
